@@ -211,8 +211,9 @@ def eval_cases(tag: str, header: str, case_terms: list[str], check_fn: str = "ch
     for k in range(0, len(case_terms), chunk):
         name = f"{tag}_{os.getpid()}_{k // chunk}"
         body = ";\n  ".join(case_terms[k:k + chunk])
-        txt = (f"{header}\nDefinition cases_ := [\n  {body}\n].\n"
-               f"Eval vm_compute in (idx_filter (fun c => negb ({check_fn} c)) cases_).\n")
+        # the list is an argument of idx_filter so that its element type comes from check_fn
+        # (a chunk whose cases all have [] in one position has no type of its own)
+        txt = (f"{header}\nEval vm_compute in (idx_filter (fun c => negb ({check_fn} c)) [\n  {body}\n]).\n")
         p = CASES / f"{name}.v"
         p.write_text(txt)
         files.append((k, p))
